@@ -18,7 +18,7 @@ RULE = ("cases = pairs of generated 3D plotfiles on a common mesh x layout relat
         "non-monotone or a selection is used")
 ASSUMPTIONS = ["generator/refparse trusted base", "pool shim M1 with shuffled schedules",
                "a pair with the same boxes in another order: 'refuse or correct' (statement silent)"]
-REQUIRED_OBS = {"combined": 80, "roles_swapped_same_process": 40, "mismatched_refused": 10, "cli_runs": 5, "first_nonmonotone": 3}
+REQUIRED_OBS = {"combined": 80, "six_digit_index_mismatch_refused": 2, "roles_swapped_same_process": 40, "mismatched_refused": 10, "cli_runs": 5, "first_nonmonotone": 3}
 TIMEOUT = {"quick": 300, "thorough": 1500}
 RELS = ["same", "order", "other", "single"]
 
@@ -34,6 +34,9 @@ def cases(tier, seed):
         if bf == 8:
             g["nlevels"] = min(g["nlevels"], 2)
         cs.append({"gen": g, "sel_seed": seed * 29 + i, "shuffle1": i % 2 == 0})
+    # scale: box indices of six digits - two meshes one cell apart must still be told apart
+    for k in range(1 if tier == "quick" else 4):
+        cs.append({"kind": "long_mismatch", "split": 100002 + 7001 * k + seed % 5, "sel_seed": seed * 29 + 999 + k})
     return cs
 
 
@@ -66,7 +69,50 @@ def taste_ok(path):
         return False
 
 
+def long_mismatch(case, work, rec):
+    """two single-level plotfiles on a 131072-cell-long domain at the origin whose two boxes are cut
+    one cell apart: different boxes => refused before anything is written"""
+    from amr_kitchen import PlotfileCooker
+    from amr_kitchen.combine.combine import combine
+
+    def build(split, name, names):
+        m = gen.gen_model(seed=case["sel_seed"], ndims=3, nlevels=1, names=names, base=[131072, 2, 2], bf=2,
+                          maxsz=131072, aniso=False, payload="random", nfiles=1, origin=[0.0, 0.0, 0.0])
+        B = type(m.boxes[0][0])
+        m.boxes[0] = [B((0, 0, 0), (split - 1, 1, 1)), B((split, 0, 0), (131071, 1, 1))]
+        rng = np.random.default_rng(case["sel_seed"])
+        m.data[0] = [np.asfortranarray(rng.standard_normal(b.shape + (len(names),))) for b in m.boxes[0]]
+        m.layout[0] = {"file_of": [0, 0], "write_order": [0, 1]}
+        p = os.path.join(work, name)
+        gen.write_plotfile(m, p)
+        return p
+    pa = build(case["split"], "long_a", ["f0"])
+    pb = build(case["split"] + 1, "long_b", ["g0"])
+    rec.sample({"long_mismatch": case["split"]})
+    for order in ((pa, pb), (pb, pa)):
+        out = os.path.join(work, "out_long")
+        pools.CTL.reset(mode="inproc", seed=1)
+        key = ("long_mismatch", case["split"], order[0] == pa)
+        what = f"boxes cut at cell {case['split']} / {case['split'] + 1} of a 131072-cell-long domain"
+        try:
+            combine(PlotfileCooker(order[0]), PlotfileCooker(order[1]), pltout=out)
+            refused = False
+        except Exception:
+            refused = True
+        if refused and not os.path.exists(out):
+            rec.count("mismatched_refused"); rec.count("six_digit_index_mismatch_refused")
+            rec.ok(key, True)
+        elif refused:
+            rec.violation(f"mismatched pair ({what}) refused only after writing into the output", key=key, mech="eq-index-tolerance")
+        else:
+            rec.violation(f"mismatched pair ({what}) was combined instead of refused", key=key, mech="eq-index-tolerance")
+        import shutil
+        shutil.rmtree(out, ignore_errors=True)
+
+
 def run_case(case, work, rec):
+    if case.get("kind") == "long_mismatch":
+        return long_mismatch(case, work, rec)
     from amr_kitchen import PlotfileCooker
     from amr_kitchen.combine.combine import combine
     rng = random.Random(case["sel_seed"])
